@@ -24,7 +24,8 @@ RULE = ('five exhaustive sub-spaces: (1) every permission value 0..07777 on regu
         'absdir/is_hidden/is_empty over a name pool x root spellings x {bfs, dfs} x readdir order, and every extension of every class list x {lower, upper, '
         'mixed, whole name, non-final component} under the default and an overriding configuration (incl. multi-part and dot-less configured suffixes); (5) sha1/256/512/sha3, '
         'line_count, is_shebang, contains over lengths (plus ASCII and multi-byte needles straddling the 8K/32K/64K/128K boundaries at every byte alignment) {0..3, 2^k-1, 2^k, 2^k+1 : k=10..17} x content kinds x needle positions; '
-        'non-trivial = every row whose expected cells are not all empty/false')
+        'non-trivial = every row whose expected cells are not all empty/false'
+        '; needles inside Latin-1 and binary content; configured extensions with non-ASCII letters')
 ASSUMPTIONS = ['oracle = os.lstat / stat.filemode / pwd / grp / hashlib / stat(1) %W for the birth time',
                'for zip members is_dir/is_file/is_symlink are derived from the member name (C19), only mode string, permission and '
                'special-file booleans are checked against the stored unix mode',
